@@ -166,6 +166,8 @@ def run(ctx):
     cfg_fn, table = cfg_table(ctx)
     ctx.info["T_cli"] = [{"flags": r.flags, "dest": r.dest, "action": r.action, "nargs": r.nargs, "kind": r.value_kind()} for r in rows]
     ctx.info["T_cfg"] = {"%s=%s" % k: (v[0] if v[0] != "ok" else {n: kd[0] for n, kd in v[1].items()}) for k, v in table.items()}
+    shared_defaults(ctx, rows)
+    explicit_config_wins(ctx)
     # ---- C20.1 / C20.2
     for flag, (dest, kind, keys) in sorted(DOC.items()):
         row = by_flag.get(flag)
@@ -294,6 +296,74 @@ def recovery(ctx, init, rows):
     ctx.floor("list-valued create options", 3, len(list_dests))
 
 
+def explicit_config_wins(ctx):
+    """C20.8: a configuration file named on the command line is the one that is read: every other value the locator can return
+    (default locations) is assigned only where no explicit path was given."""
+    from tfsa.reach import ReachDefs
+    fn = ctx.prog.functions.get("torrentfile.commands:find_config_file")
+    if fn is None:
+        ctx.undecided("C20.8", None, "anchor vanished: find_config_file")
+        return
+    ns = fn.params[0]
+    g = C.cfg_of(fn)
+    rd = ReachDefs(fn, g)
+
+    def is_explicit(e):
+        return isinstance(e, ast.Attribute) and isinstance(e.value, ast.Name) and e.value.id == ns and e.attr == "config_path"
+    n = 0
+    for r in [x for x in own_nodes(fn.node) if isinstance(x, ast.Return) and x.value is not None]:
+        if not isinstance(r.value, ast.Name):
+            if not is_explicit(r.value):
+                ctx.undecided("C20.8", fn, "the locator returns `%s`" % norm(r.value), r)
+            continue
+        rn = C.stmt_node(ctx, fn, r)
+        for d in rd.reaching(r.value.id, rn):
+            v = d.value if d.kind == "assign" else None
+            if v is None or (isinstance(v, ast.Constant) and v.value is None) or is_explicit(v):
+                continue
+            n += 1
+            only_without = False
+            for b, lab in g.control_deps(d.node, normal_only=True):
+                t = C.test_expr(b)
+                if t is None:
+                    continue
+
+                def atom(x):
+                    return True if is_explicit(x) else None
+                if C.branch_when(b, atom) not in (None, lab):
+                    only_without = True
+            ctx.decide("C20.8", fn, only_without, "the default location `%s` is used only when no configuration path was given" % norm(v),
+                       "`%s` (a default location) replaces the result even when --config-path names a file: the options of the file the user pointed at are ignored in favour of whatever "
+                       "torrentfile.ini lies in the working / home directory" % norm(d.stmt if d.stmt is not None else v), d.stmt if d.stmt is not None else r)
+    ctx.floor("default-location results of the configuration locator", 1, n)
+
+
+def shared_defaults(ctx, rows):
+    """C20.7: one container object must not be the default of several options if anything modifies an option value in place:
+    filling one of them (e.g. trackers read from the configuration file) then also fills the others."""
+    from .c09 import inplace_option_mutations, is_container_expr
+    ex = ctx.prog.func("torrentfile.cli:execute")
+    groups = {}
+    for r in rows:
+        d = r.kw.get("default")
+        if d is not None and is_container_expr(ctx, d, ex.module):
+            groups.setdefault(id(d), []).append(r)
+    shared = [g for g in groups.values() if len({r.dest for r in g}) > 1]
+    if not shared:
+        ctx.holds("C20.7", ex, "no container object is the default of more than one create option", "shared default containers", nontrivial=False)
+        return
+    for g in shared:
+        dests = sorted({r.dest for r in g})
+        hits = inplace_option_mutations(ctx, set(dests))
+        if hits:
+            f, n, d = hits[0]
+            ctx.violated("C20.7", f, "the options %s share one default list object (`%s`), and `%s` fills the value of %r in place: when it is the shared default, the same entries appear "
+                         "under every other option of the group (trackers from the configuration file end up in url-list / httpseeds)" % (
+                             ", ".join(dests), norm(g[0].kw["default"]), norm(n)[:70], d), "shared default containers")
+        else:
+            ctx.holds("C20.7", ex, "the options %s share one default container, but no option value is ever modified in place" % ", ".join(dests), "shared default containers")
+
+
 def post_recovery_values(ctx, init, rows, flow):
     """C20.4b: the list stored in the metafile is the one left AFTER a swallowed content path was taken out of it."""
     field_of = {"url_list": "url-list", "httpseeds": "httpseeds", "announce": "announce-list"}
@@ -304,7 +374,7 @@ def post_recovery_values(ctx, init, rows, flow):
         stores = [n for n in own_nodes(init.node) if isinstance(n, ast.Assign) and len(n.targets) == 1 and isinstance(n.targets[0], ast.Subscript) and const_str(n.targets[0].slice) == key]
         for st in stores:
             t = flow.term(st.value, init)
-            trimmed = any(x[0] == "sub" and any(i == ("const", "slice") for i in x[2]) and any(b[0] == "param" and b[2] == dest for b in x[1]) for x in walk_terms(t))
+            trimmed = any(x[0] == "sub" and any(i[0] == "op" and i[1] == "slice" for i in x[2]) and any(b[0] == "param" and b[2] == dest for b in x[1]) for x in walk_terms(t))
             ctx.decide("C20.4", init, trimmed, "field %r is stored from the list as it stands after the recovery of a swallowed content path" % key,
                        "field %r is stored from a copy of %r taken BEFORE the recovery arm removes a swallowed content path: `create --%s url <content>` leaves the local path in the list" % (
                            key, dest, dest.replace("_", "-").replace("url-list", "web-seed").replace("httpseeds", "http-seed")), st)
@@ -435,7 +505,7 @@ QUICK_CANARIES = True
 CLAIM = {
     "text": "Decided for all documented options and all three routes as agreement of tables extracted from the source: flag -> keyword (argparse rows), configuration key -> keyword and value "
             "kind (trace of the parser's if/elif chain on each documented key), keyword -> metafile field (origin terms and control dependence in MetaFile.__init__), plus the recovery arms "
-            "for list-valued flags and the kind-normalised version dispatch. Identical keywords with identical kinds reach one constructor, so the three routes build the same metafile.",
+            "for list-valued flags and the kind-normalised version dispatch. Identical keywords with identical kinds reach one constructor, so the three routes build the same metafile. C20.7: one container object shared as default by several options together with an in-place modification of an option value; C20.8: an explicit --config-path wins over the default locations.",
     "note": "Trusted: argparse and configparser semantics. Values are compared by kind (list / bool / str), not by content; numeric interpretation of piece-length strings is C12. "
             "Options outside the documented list (progress, config, magnet) are CLI-only and not judged.",
     "technique": "extracted argparse table, CFG trace of the configuration parser per documented key, origin-term / control-dependence field table, comparison-kind check",
